@@ -7,6 +7,7 @@ BASE_NOTE = ("Trusted base: go/ssa construction, the engine's instruction semant
              "Claim is bounded: nothing outside the bounds listed in the evidence file is decided. Stubs: fmt/log (opaque), crc32 (UF on symbolic bytes), zlib (real on concrete, stored-block codec on symbolic), time/rand (logical).")
 CLAIMED = {
  "C01": dict(text="Every feasible path of the real codec/block/table writer and reader inside the harness bounds is executed symbolically; the round-trip assertions are discharged by z3 for all values of the symbolic payload bytes, update indices, limits and configurations (bounds per harness in evidence). Bounded model checking: exhaustive inside the bounds, silent outside.", ref="5/C01"),
+ "C02": dict(text="The seek key (every byte and every length within the bound, for reflogs also every 64-bit update index) is symbolic; the real writer builds the table and its indexes, the real reader seeks, and the suffix-of-scan oracle is asserted on every path. Exhaustive over the key space for the listed table shapes (0..3 index levels, multi-block top level, sections following an index), silent outside.", ref="5/C02"),
  "C18": dict(text="Every decoder entry point is run on an arbitrary (fully symbolic) buffer of bounded length; index/slice/nil/divide/allocation panics and step-budget overruns are implicit assertions decided by z3 on every path. Hostile deflate streams and longer files are outside the bound.", ref="5/C18"),
 }
 NOT_YET = "check not built yet in this session (work in progress); planned per DESIGN.md section 5"
